@@ -1,11 +1,13 @@
 #!/usr/bin/env python3
 """C15 - an environment's behaviour depends on its contents, not on its history (DESIGN.md §3 C15).
 
+Template names are opaque strings - the universe holds spellings of each other (a, ./a, b, /b observed after every step;
+//a, a/, b/../a, A, NFC/NFD, ./b, .//a used by add/get/remove/loader).
 Histories over {add_template, add_template_owned (3 Cow combinations), remove_template, clear_templates,
 set_loader (closures whose answers change with a clock), add/remove filter/test/global (custom names,
 built-ins, user functions/filters/tests taking Kwargs, a global holding a container), clone (continue on either copy), switch, render (any of 4 contexts, into a String or a failing writer, on
 this or a new thread; ok / compile-time failure / run-time failure in tojson, in filters, in assert_all_used,
-in the sink / failing or panicking context), values that ESCAPE a render (macro, loop object, namespace, caller; via a
+in the sink / failing or panicking Serde contexts incl. #[serde(flatten)] of a Value), values that ESCAPE a render (macro, loop object, namespace, caller; via a
 user function or State::lookup; on this or another thread) passed as context to later renders (this thread, a fresh
 thread, a thread with earlier renders), NESTED renders (filters, tests, functions, objects'
 Display / attribute lookup / methods, formatter, auto-escape callback, loader callback that render a template
@@ -491,12 +493,12 @@ def main():
             vecs.add(tuple(line[2:10]))
             if line[0] == 1:
                 failed = True
-                if s[0] in (0, 1, 2, 3) and k > 0 and sp[(k - 1) * STEP_W + 2 + 2 * (s[1] % 4)] == 0:
+                if s[0] in (0, 1, 2, 3) and k > 0 and s[1] < 4 and sp[(k - 1) * STEP_W + 2 + 2 * (s[1] % 4)] == 0:
                     held = True
             if line[10] == 1 and line[11:19] != line[2:10]:
                 events["steps where clone and original render differently"] += 1
             cont = r["contents"][i][k][0]
-            if s[0] in (8, 15) and k > 0 and cont[s[1] % 4] >= 0 and r["contents"][i][k - 1][0][s[1] % 4] < 0:
+            if s[0] in (8, 15) and k > 0 and s[1] < 4 and cont[s[1] % 4] >= 0 and r["contents"][i][k - 1][0][s[1] % 4] < 0:
                 events["renders that obtained a source from the loader and pinned it"] += 1
             if s[0] == 9 and s[2] >= 4 and (s[1] % 4 < 2 or s[1] == 10):
                 events["registered callables/objects that render a template themselves (nested renders)"] += 1
@@ -504,6 +506,10 @@ def main():
                 events["templates printing/asking/calling the global object under none/html/json added"] += 1
             if s[0] in (23, 24) or (s[0] == 6 and s[1] >= 4):
                 events["formatter / auto-escape callback / loader that renders a template itself installed"] += 1
+            if s[0] in (0, 1, 2, 3, 4, 8, 15, 26) and s[1] >= 4:
+                events["operations on further name spellings (//a, a/, b/../a, A, NFC/NFD, ./b, .//a)"] += 1
+            if s[0] == 15 and line[0] == 1 and line[1] != 5:
+                events["renders whose Serde context failed to convert (custom error / flatten)"] += 1
             if s[0] in (26, 27) and line[0] == 6:
                 events["captures: a macro / loop object / namespace / caller escaped from a render"] += 1
                 if s[0] == 26 and s[2] % 4: events["... captured on a thread of its own"] += 1
